@@ -74,6 +74,12 @@ fn cat(a: &[u8], b: &[u8]) -> Vec<u8> {
     v
 }
 
+/// What a filter answers with: a constant, the message itself, or a fresh heap binary built from it
+/// (the verdict is only a verdict, but its storage has to be accounted for like any other value).
+fn verdict(rng: &mut Rng) -> &'static str {
+    *rng.pick(&["Ok", "Ok", "m", "[m, 0x01] __binary_concat__", "[[m, m] __binary_concat__, 7]"])
+}
+
 /// One episode: statements (grouped; a group may become a REPL line) and the bytes of `r{k}`.
 fn episode(k: usize, kind: u64, rng: &mut Rng, g: &mut BinGen) -> (Vec<String>, Vec<u8>) {
     let mut st = Vec::new();
@@ -216,13 +222,47 @@ fn episode(k: usize, kind: u64, rng: &mut Rng, g: &mut BinGen) -> (Vec<String>, 
             st.push(format!("r{k} = [x{k}, x{k}] __binary_concat__"));
             exp = cat(&yb, &yb);
         }
+        15 => {
+            // the same unfinished process listed in consecutive selects that time out, then awaited:
+            // every select registers for its result again
+            let (x, xb) = g.heap(rng);
+            let cs = *rng.pick(&[30u32, 90, 200, 400]);
+            let n = 1 + rng.usize(3);
+            let sels: Vec<String> = (0..n).map(|i| format!("t{i} = [! [p, {}]]", 1 + rng.below(3))).collect();
+            st.push(format!("c{k} = @{{ w = [{cs}, 0] spin, {x} }}"));
+            if rng.chance(1, 2) {
+                st.push(format!("e{k} = &c{k} @#(@-> 'bin) {{ =p, {}, !p }}", sels.join(", ")));
+                st.push(format!("r{k} = !e{k}"));
+            } else {
+                for i in 0..n {
+                    st.push(format!("t{k}x{i} = [! [c{k}, {}]]", 1 + rng.below(3)));
+                }
+                st.push(format!("r{k} = !c{k}"));
+            }
+            exp = xb;
+        }
+        19 => {
+            // a result that arrives for a select which lists the process twice, or next to a receive
+            // that already holds a binary
+            let (x, xb) = g.heap(rng);
+            let (y, _) = g.heap(rng);
+            let cs = *rng.pick(&[5u32, 30, 90]);
+            st.push(format!("c{k} = @{{ w = [{cs}, 0] spin, {x} }}"));
+            st.push(format!("e{k} = &c{k} @#(@-> 'bin) {{ =p, a = [! [#'bin, p, 3]], b = [! [p, p, 2]], !p }}"));
+            if rng.chance(1, 2) {
+                st.push(format!("{y} e{k}"));
+            }
+            st.push(format!("r{k} = !e{k}"));
+            exp = xb;
+        }
         16 => {
             // a body-less higher-priority receive wins while a lower-priority filter is in flight on a
             // heap-binary message; the binary is received and dropped afterwards
             let (x, _) = g.heap(rng);
             let (y, yb) = g.heap(rng);
             let s = *rng.pick(&[4u32, 15, 40, 120]);
-            st.push(format!("e{k} = @{{ a = ! [#'int, #'bin {{ =m, w = [{s}, 0] spin, Ok }}], b = ! [#'int, #'bin], 0x00 }}"));
+            let vd = verdict(rng);
+            st.push(format!("e{k} = @{{ a = ! [#'int, #'bin {{ =m, w = [{s}, 0] spin, {vd} }}], b = ! [#'int, #'bin], 0x00 }}"));
             st.push(format!("{x} e{k}"));
             if rng.chance(1, 2) {
                 st.push(format!("w{k} = [{}, 0] spin", *rng.pick(&[5u32, 30, 90])));
@@ -239,7 +279,8 @@ fn episode(k: usize, kind: u64, rng: &mut Rng, g: &mut BinGen) -> (Vec<String>, 
             let s = *rng.pick(&[15u32, 40, 120]);
             let cs = *rng.pick(&[5u32, 30, 90]);
             st.push(format!("c{k} = @{{ [{cs}, 0] spin }}"));
-            st.push(format!("e{k} = &c{k} @#(@-> 'int) {{ =p, a = ! [p, #'bin {{ =m, w = [{s}, 0] spin, Ok }}], b = ! [#'bin, 50], 0x00 }}"));
+            let vd = verdict(rng);
+            st.push(format!("e{k} = &c{k} @#(@-> 'int) {{ =p, a = ! [p, #'bin {{ =m, w = [{s}, 0] spin, {vd} }}], b = ! [#'bin, 50], 0x00 }}"));
             st.push(format!("{x} e{k}"));
             st.push(format!("q{k} = !e{k}"));
             st.push(format!("r{k} = {y}"));
@@ -250,7 +291,8 @@ fn episode(k: usize, kind: u64, rng: &mut Rng, g: &mut BinGen) -> (Vec<String>, 
             let (x, _) = g.heap(rng);
             let (y, yb) = g.heap(rng);
             let s = *rng.pick(&[40u32, 120, 300]);
-            st.push(format!("e{k} = @{{ a = ! [2, #'bin {{ =m, w = [{s}, 0] spin, Ok }}], b = ! [#'bin, 300], 0x00 }}"));
+            let vd = verdict(rng);
+            st.push(format!("e{k} = @{{ a = ! [2, #'bin {{ =m, w = [{s}, 0] spin, {vd} }}], b = ! [#'bin, 300], 0x00 }}"));
             st.push(format!("{x} e{k}"));
             st.push(format!("q{k} = !e{k}"));
             st.push(format!("r{k} = {y}"));
@@ -353,7 +395,8 @@ fn episode(k: usize, kind: u64, rng: &mut Rng, g: &mut BinGen) -> (Vec<String>, 
             let (x, _) = g.heap(rng);
             let (y, yb) = g.heap(rng);
             let s = *rng.pick(&[4u32, 15, 40]);
-            st.push(format!("e{k} = @{{ a = ! [#'int {{ =m, w = [{s}, 0] spin, Ok }}, #'bin {{ =m, w = [{s}, 0] spin, Ok }}], b = ! [#'int, #'bin], 0x00 }}"));
+            let vd = verdict(rng);
+            st.push(format!("e{k} = @{{ a = ! [#'int {{ =m, w = [{s}, 0] spin, Ok }}, #'bin {{ =m, w = [{s}, 0] spin, {vd} }}], b = ! [#'int, #'bin], 0x00 }}"));
             st.push(format!("{x} e{k}"));
             st.push(format!("5 e{k}"));
             st.push(format!("q{k} = !e{k}"));
